@@ -210,10 +210,14 @@ def rule_total(ctx: Ctx) -> RuleReport:
 def _branches(pe):
     """(tag literal, if-statement) for the top-level `if tag == "x"` blocks of process_element."""
     out = []
+    prm = {a.arg for a in pe.node.args.args}
+    # the local that holds the element's tag (assigned from <param>.tag, possibly stripped of the namespace), whatever it is called
+    tagv = {n.targets[0].id for n in pe.node.body if isinstance(n, ast.Assign) and len(n.targets) == 1 and isinstance(n.targets[0], ast.Name)
+            and any(isinstance(x, ast.Attribute) and x.attr == "tag" and isinstance(x.value, ast.Name) and x.value.id in prm for x in ast.walk(n.value))}
     for st in pe.node.body:
         if isinstance(st, ast.If):
             for n in ast.walk(st.test):
-                if isinstance(n, ast.Compare) and isinstance(n.left, ast.Name) and n.left.id == "tag" and len(n.ops) == 1 and isinstance(n.ops[0], ast.Eq) and isinstance(n.comparators[0], ast.Constant):
+                if isinstance(n, ast.Compare) and isinstance(n.left, ast.Name) and n.left.id in tagv and len(n.ops) == 1 and isinstance(n.ops[0], ast.Eq) and isinstance(n.comparators[0], ast.Constant):
                     out.append((n.comparators[0].value, st))
     return out
 
